@@ -292,6 +292,54 @@ func init() {
 			})
 			return defBool("read_add_copies_its_argument", param != "" && copied && !storedDirect)
 		}},
+		// node.tick advances the logical clock of every request table on every path that
+		// does not fail: the four table ticks are top-level statements of node.tick, called
+		// with its tick parameter, and no statement before the last of them can return
+		// anything but a raft error (`return err`) - in particular not the quiesced branch
+		Fact{Name: "node_tick_advances_all_tables", Gen: func() string {
+			fd := root().Func("node", "tick")
+			param := ""
+			if len(fd.Type.Params.List) == 1 && len(fd.Type.Params.List[0].Names) == 1 {
+				param = fd.Type.Params.List[0].Names[0].Name
+			}
+			want := map[string]bool{"n.pendingSnapshot.tick": false, "n.pendingProposals.tick": false,
+				"n.pendingReadIndexes.tick": false, "n.pendingConfigChange.tick": false}
+			last := -1
+			for i, st := range fd.Body.List {
+				es, ok := st.(*ast.ExprStmt)
+				if !ok {
+					continue
+				}
+				c, ok := es.X.(*ast.CallExpr)
+				if !ok || len(c.Args) != 1 {
+					continue
+				}
+				name := selString(c.Fun)
+				if _, w := want[name]; w {
+					if a, ok := c.Args[0].(*ast.Ident); ok && a.Name == param {
+						want[name] = true
+						last = i
+					}
+				}
+			}
+			ok := param != "" && last >= 0
+			for _, v := range want {
+				ok = ok && v
+			}
+			if ok {
+				for _, st := range fd.Body.List[:last] {
+					ast.Inspect(st, func(n ast.Node) bool {
+						if r, isRet := n.(*ast.ReturnStmt); isRet {
+							if !(len(r.Results) == 1 && selString(r.Results[0]) == "err") {
+								ok = false
+							}
+						}
+						return true
+					})
+				}
+			}
+			return defBool("node_tick_advances_all_tables", ok)
+		}},
 		// pendingRaftLogQuery.add refuses requests after close
 		Fact{Name: "logquery_add_refuses_when_stopped", Gen: func() string {
 			return defBool("logquery_add_refuses_when_stopped",
